@@ -43,6 +43,7 @@ def strategy(tier):
         "send_fault": st.one_of(st.none(), st.tuples(st.integers(0, 4), st.sampled_from([32, 104])).map(list)),
         "read_input": st.sampled_from(["none", "all", "some", "line"]),
         "keepalive": st.sampled_from([0, 2, 2]),
+        "peer": st.sampled_from(["tcp4", "tcp4", "unix", "tcp6"]),
     })
 
 
@@ -148,7 +149,7 @@ def extra_cases(tier, seed, shard, nshards):
             yield {"fixture": name, "offset": off, "kind": wenv.KINDS[k % 4], "cuts": [off // 2] if k % 3 == 0 else [],
                    "recv_fault": [k % 3, 104] if k % 7 == 0 else None,
                    "send_fault": [k % 2, 32] if k % 5 == 0 else None, "read_input": ("all", "none", "some")[(k // 4) % 3],
-                   "keepalive": 2}
+                   "keepalive": 2, "peer": ("tcp4", "unix", "tcp6")[k % 3]}
 
 
 EXHAUSTIVE_NOTE = ("every repository request fixture (tests/requests/valid+invalid) truncated at every offset in the thorough tier "
@@ -173,12 +174,15 @@ def run_case(case):
     from vlib.penv import segment
     segs = segment(data, case["cuts"]) if data else []
     rf, sf = case.get("recv_fault"), case.get("send_fault")
-    sock = wenv.FakeSocket(segs, recv_fault=tuple(rf) if rf else None, send_fault=tuple(sf) if sf else None)
+    peer = {"tcp4": ("127.0.0.1", 50000), "unix": "", "tcp6": ("::1", 50000, 0, 0)}[case.get("peer", "tcp4")]
+    if case.get("peer") == "unix":
+        env.listener = wenv.FakeListener("/run/gunicorn.sock")       # what accept() and getsockname() give on an AF_UNIX listener
+    sock = wenv.FakeSocket(segs, recv_fault=tuple(rf) if rf else None, send_fault=tuple(sf) if sf else None, peer=peer)
     vio = []
-    classes = ["kind:" + kind]
+    classes = ["kind:" + kind, "peer:" + case.get("peer", "tcp4")]
 
     def V(clause, sig, observed=None, expected=None):
-        vio.append(Violation(clause, "C05/" + sig, observed={"detail": observed, "stream": data[:600], "wire": sock.received()[:500],
+        vio.append(Violation(clause, "C05/" + sig, observed={"detail": observed, "peer": case.get("peer"), "stream": data[:600], "wire": sock.received()[:500],
                                                              "calls": len(app.calls), "kind": kind, "faults": [rf, sf]},
                              expected=expected))
 
@@ -264,7 +268,7 @@ def run_case(case):
         else:
             app2 = wenv.AppProgram(dict(prog, read_input="none"))
             env.worker.wsgi = app2
-            s2 = wenv.FakeSocket([b"GET /again HTTP/1.1\r\nHost: h\r\nConnection: close\r\n\r\n"])
+            s2 = wenv.FakeSocket([b"GET /again HTTP/1.1\r\nHost: h\r\nConnection: close\r\n\r\n"], peer=peer)
             try:
                 esc2 = env.serve(s2)
             except wenv.HarnessWedge:
